@@ -5,6 +5,7 @@ import (
 	"bytes"
 	"compress/gzip"
 	"context"
+	"encoding/json"
 	"fmt"
 	"os"
 	"path/filepath"
@@ -62,13 +63,26 @@ func genName(t *rapid.T, label string, prefixMode int) string {
 	}
 }
 
-var linkTargets = []string{"a", "b", "d1", "d1/d2", "..", "../..", "../../out/victim.txt", "s1/..", "s1/../..", "d1/d2/s2/../..", "d1/d2/s2/../../..", "@OUT/victim.txt", "@OUT", "@WD/name/a", "@WD/other", "cwdfile.txt", "./cwdfile.txt", "victim.txt", "/etc/verif-nonexistent", "s1/../../out/victim.txt", "name/a"}
+var linkTargets = []string{"d1/d2/s2/../../out", "a", "b", "d1", "d1/d2", "..", "../..", "../../out/victim.txt", "s1/..", "s1/../..", "d1/d2/s2/../..", "d1/d2/s2/../../..", "@OUT/victim.txt", "@OUT", "@WD/name/a", "@WD/other", "cwdfile.txt", "./cwdfile.txt", "victim.txt", "/etc/verif-nonexistent", "s1/../../out/victim.txt", "name/a"}
 
 func genCase(t *rapid.T) Case {
 	c := Case{PrePop: rapid.IntRange(0, 2).Draw(t, "prePop"), Preserve: rapid.Bool().Draw(t, "preserve")}
+	switch rapid.IntRange(0, 14).Draw(t, "kind3") {
+	case 0:
+		// a harmless named blob first, then a manifest that lists the same content
+		// under another (possibly escaping) name: the store restores duplicates
+		c.Kind = "manifest-dup"
+		c.Title = rapid.SampledFrom([]string{"copy.txt", "sub/copy.txt", "../x.txt", "sub/../../x.txt", "@OUT/victim.txt", "@OUT/new.txt", "@SIB/victim.txt", "../../out/victim.txt", "./ok2.txt"}).Draw(t, "dupTitle")
+		return c
+	case 1:
+		c.Kind = "tar-title"
+		c.Title = rapid.SampledFrom([]string{"@SIB/unpacked", "../wd-backup/unpacked", "@OUT/unpacked", "sub/dir", "a/../b"}).Draw(t, "tarTitle")
+		c.Entries = []TEntry{{Type: "dir", Name: "@T/d/", Mode: 0o755}, {Type: "reg", Name: "@T/d/f.txt", Mode: 0o644, Data: "unpacked"}, {Type: "reg", Name: "@T/victim.txt", Mode: 0o644, Data: "unpacked2"}}
+		return c
+	}
 	if rapid.IntRange(0, 4).Draw(t, "kind") == 0 {
 		c.Kind = "title"
-		c.Title = rapid.SampledFrom([]string{"f.txt", "./f.txt", "a/../b.txt", "../x.txt", "../../out/victim.txt", "@WD/in.txt", "@OUT/victim.txt", "a//b.txt", "d/", ".", "..", "a/../../out/victim.txt", "/etc/verif-nonexistent/x"}).Draw(t, "title")
+		c.Title = rapid.SampledFrom([]string{"f.txt", "./f.txt", "a/../b.txt", "../x.txt", "../../out/victim.txt", "@WD/in.txt", "@OUT/victim.txt", "a//b.txt", "d/", ".", "..", "a/../../out/victim.txt", "/etc/verif-nonexistent/x", "@SIB/victim.txt", "@SIB/new/x.txt", "../wd-backup/victim.txt"}).Draw(t, "title")
 		return c
 	}
 	c.Kind = "tar"
@@ -77,7 +91,7 @@ func genCase(t *rapid.T) Case {
 		return rapid.SampledFrom([]int64{0o644, 0o600, 0o755, 0o777, 0o4755, 0o444}).Draw(t, label)
 	}
 	add := func(e TEntry) { c.Entries = append(c.Entries, e) }
-	tmpl := rapid.IntRange(0, 9).Draw(t, "template")
+	tmpl := rapid.IntRange(0, 10).Draw(t, "template")
 	pm := rapid.SampledFrom([]int{0, 0, 0, 1, 2}).Draw(t, "prefixMode")
 	switch tmpl {
 	case 0: // symlink, then write through it
@@ -108,6 +122,13 @@ func genCase(t *rapid.T) Case {
 		add(TEntry{Type: "sym", Name: "name/s1", Link: rapid.SampledFrom(linkTargets).Draw(t, "t4")})
 		add(TEntry{Type: "dir", Name: "name/s1/", Mode: mode("m")})
 		add(TEntry{Type: "reg", Name: "name/s1/g", Mode: mode("m2"), Data: "y"})
+	case 10: // an empty directory (kept empty by a skipped entry) is replaced by an escaping symlink, then written through
+		add(TEntry{Type: "dir", Name: "name/d1/d2/", Mode: 0o755})
+		add(TEntry{Type: "sym", Name: "name/d1/d2/s2", Link: "../.."})
+		add(TEntry{Type: "dir", Name: "name/e/", Mode: 0o755})
+		add(TEntry{Type: rapid.SampledFrom([]string{"fifo", "char"}).Draw(t, "skipped"), Name: "name/e/pipe", Mode: 0o644})
+		add(TEntry{Type: "sym", Name: "name/e", Link: rapid.SampledFrom([]string{"d1/d2/s2/../../out", "d1/d2/s2/../../wd-backup", "d1/d2/s2/.."}).Draw(t, "t10")})
+		add(TEntry{Type: "reg", Name: "name/e/victim.txt", Mode: mode("m"), Data: "through-replaced-dir"})
 	case 5: // benign tree
 		add(TEntry{Type: "dir", Name: "name/d1/", Mode: 0o755})
 		add(TEntry{Type: "reg", Name: "name/d1/a", Mode: mode("m"), Data: "hello"})
@@ -134,7 +155,7 @@ func genCase(t *rapid.T) Case {
 			add(e)
 		}
 	}
-	if pm != 0 && tmpl < 6 {
+	if pm != 0 && (tmpl < 6 || tmpl == 10) {
 		for i := range c.Entries {
 			switch pm {
 			case 1:
@@ -148,18 +169,19 @@ func genCase(t *rapid.T) Case {
 }
 
 type sandbox struct {
-	root, wd, out, cwd, tmp string
+	root, wd, out, cwd, tmp, sib string
 }
 
 func (s *sandbox) subst(p string) string {
 	p = strings.ReplaceAll(p, "@OUT", s.out)
+	p = strings.ReplaceAll(p, "@SIB", s.sib) // a sibling directory whose name starts with the working directory's name
 	return strings.ReplaceAll(p, "@WD", s.wd)
 }
 
 func newSandbox(c *Case) (*sandbox, error) {
 	root := vt.Scratch("c11-")
-	s := &sandbox{root: root, wd: filepath.Join(root, "wd"), out: filepath.Join(root, "out"), cwd: filepath.Join(root, "cwd"), tmp: filepath.Join(root, "tmp")}
-	for _, d := range []string{s.wd, s.out, s.cwd, s.tmp, filepath.Join(s.out, "odir")} {
+	s := &sandbox{root: root, wd: filepath.Join(root, "wd"), out: filepath.Join(root, "out"), cwd: filepath.Join(root, "cwd"), tmp: filepath.Join(root, "tmp"), sib: filepath.Join(root, "wd-backup")}
+	for _, d := range []string{s.wd, s.out, s.cwd, s.tmp, s.sib, filepath.Join(s.out, "odir")} {
 		if err := os.MkdirAll(d, 0o755); err != nil {
 			return nil, err
 		}
@@ -208,7 +230,7 @@ func lexicalEscape(s *sandbox, c *Case) bool {
 		cl := filepath.ToSlash(filepath.Clean(p))
 		return cl == ".." || strings.HasPrefix(cl, "../")
 	}
-	if c.Kind == "title" {
+	if c.Kind == "title" || c.Kind == "manifest-dup" || c.Kind == "tar-title" {
 		return outside(c.Title, s.wd)
 	}
 	for _, e := range c.Entries {
@@ -238,7 +260,7 @@ func buildTarGz(s *sandbox, c *Case) ([]byte, error) {
 	var raw bytes.Buffer
 	tw := tar.NewWriter(&raw)
 	for _, e := range c.Entries {
-		name := s.subst(e.Name)
+		name := strings.ReplaceAll(s.subst(e.Name), "@T", s.subst(c.Title))
 		if e.Type != "dir" {
 			name = strings.TrimRight(name, "/")
 		}
@@ -303,7 +325,19 @@ func runCase(c Case) (res vt.Result, fail *vt.Fail) {
 	var content []byte
 	desc := ocispec.Descriptor{MediaType: "application/octet-stream"}
 	title := s.subst(c.Title)
-	if c.Kind == "title" {
+	if c.Kind == "manifest-dup" {
+		blob := []byte("shared-bytes")
+		first := ocispec.Descriptor{MediaType: "application/octet-stream", Digest: digest.FromBytes(blob), Size: int64(len(blob)), Annotations: map[string]string{ocispec.AnnotationTitle: "ok.txt"}}
+		if err := store.Push(context.Background(), first, bytes.NewReader(blob)); err != nil {
+			return res, vt.Failf("harness/first-push", "%v", err)
+		}
+		layer := first
+		layer.Annotations = map[string]string{ocispec.AnnotationTitle: title}
+		m := ocispec.Manifest{MediaType: "application/vnd.oci.image.manifest.v1+json", Config: ocispec.Descriptor{MediaType: "application/vnd.oci.empty.v1+json", Digest: digest.FromBytes([]byte("{}")), Size: 2}, Layers: []ocispec.Descriptor{layer}}
+		m.SchemaVersion = 2
+		content, _ = json.Marshal(m)
+		desc.MediaType = m.MediaType
+	} else if c.Kind == "title" {
 		content = []byte("payload")
 		desc.Annotations = map[string]string{ocispec.AnnotationTitle: title}
 	} else {
